@@ -338,11 +338,11 @@ pub(crate) mod verif_merkle {
         let (mut tree, root) = build::<N, LL>(version, &leaves);
         core::mem::forget(root);
         tree.reset();
-        vassert!(tree.is_empty(), "VERIF:C04:reset-empties-the-leaf-level");
+        vassert!(tree.is_empty(), "VERIF:C04+C02:reset-empties-the-leaf-level");
         let mut l = 0;
         while l < 4 {
             if l < tree.levels.len() {
-                vassert!(tree.levels[l].is_empty(), "VERIF:C04:reset-empties-every-level");
+                vassert!(tree.levels[l].is_empty(), "VERIF:C04+C02:reset-empties-every-level");
             }
             l += 1;
         }
